@@ -432,7 +432,7 @@ func init() {
 					c.Expired()
 				}
 			}
-			os.WriteFile(filepath.Join(core.Root, ".build", "C19-race-stderr.txt"), []byte(stderrAll), 0o644)
+			os.WriteFile(filepath.Join(core.BuildDir(), "C19-race-stderr.txt"), []byte(stderrAll), 0o644)
 			if n := core.SaveRaceReports("C19", stderrAll); n > 0 {
 				c.Note("%d race detector report(s) saved to %s", n, filepath.Join(core.Root, "replays", "C19-race-reports.txt"))
 			}
